@@ -105,6 +105,9 @@ EXTRA_REASONS = ["\tmax_retries ", "upstream reset\r\n", " boom"]
 
 
 def reason_n(s):
+    """Index of a dead-letter reason in the model.  A reason given to MarkDead that is blank after trimming is NO reason (the stores'
+    `strings.TrimSpace(reason) == ""` test) and reaches the model as the empty reason; a blank reason READ BACK from a store that is
+    not the empty string has no index (777777), so a store that keeps the white space shows as a difference."""
     allr = REASONS + EXTRA_REASONS
     return allr.index(s) if s in allr else 777777
 
@@ -274,7 +277,7 @@ def coq_case(mp, hist, out, backend):
         elif name in ("lease", "lease_batch"):
             k = op["kind"]
             kind = {"ack": "KAck", "nack": "(KNack %s)" % cZ(op["dur"]), "extend": "(KExtend %s)" % cZ(op["dur"]),
-                    "dead": "(KDead %s)" % cN(reason_n(op["reason"]))}[k]
+                    "dead": "(KDead %s)" % cN(reason_n(op["reason"] if op["reason"].strip() else ""))}[k]
             args = res.get("lease_args") or []
             if name == "lease":
                 t = "(LeaseOp %s %s %s)" % (cZ(now), kind, coq_lref(mp, op["lease"], args[0]))
